@@ -68,9 +68,11 @@ Definition overrides_ok (a : coreargs) (obs : tree) : bool :=
   && has_section obs "run" && has_section obs "tasks" && has_section obs "sudo"
   && has_section obs "timeouts".
 
-Definition spec_ok_cli (a : coreargs) (lower : config) (env_var : option string)
+Definition spec_ok_cli_r (strict : bool) (a : coreargs) (lower : config) (env_var : option string)
            (parent : env) (command : string) (k : kwargs)
            (obs_overrides : tree) (obs_runtime : option string) (obs : outcome) : bool :=
   overrides_ok a obs_overrides
   && opt_str_eqb obs_runtime (match a_config a with Some p => Some p | None => env_var end)
-  && spec_ok_opts (documented_config a lower) parent command k obs.
+  && spec_ok_opts_r strict (documented_config a lower) parent command k obs.
+
+Definition spec_ok_cli := spec_ok_cli_r true.
